@@ -38,7 +38,34 @@ template <class It, class T> inline It vp_std_lower_bound(It b, It e, const T& v
   return best;
 }
 }
+// std::vector stub for the reclaimers' scratch vectors: fixed capacity, never reallocates (an overflow is flagged).
+// The real vector's reallocation path is guarded by a symbolic size test at every push_back, which only adds
+// infeasible paths here (the library reserves the needed capacity up front).
+extern "C" void vp_assert(bool c, unsigned id);
+namespace std {
+template <class T, class A = void>
+class vp_vector {
+  T data_[24];
+  T* end_ = data_;
+public:
+  using iterator = T*; using const_iterator = const T*; using value_type = T;
+  vp_vector() = default;
+  void reserve(std::size_t) {}
+  void push_back(const T& v) { if (end_ == data_ + 24) { vp_assert(false, 9999); return; } *end_++ = v; }
+  iterator begin() { return data_; }
+  iterator end() { return end_; }
+  const_iterator begin() const { return data_; }
+  const_iterator end() const { return end_; }
+  std::size_t size() const { return static_cast<std::size_t>(end_ - data_); }
+  bool empty() const { return end_ == data_; }
+  iterator erase(iterator f, iterator l) { if (f != l) { iterator d = f; for (iterator s = l; s != end_; ++s, ++d) *d = *s; end_ = d; } return f; }
+  void clear() { end_ = data_; }
+  T& operator[](std::size_t i) { return data_[i]; }
+  const T& operator[](std::size_t i) const { return data_[i]; }
+};
+}
 #define sort vp_std_sort
+#define vector vp_vector
 #define unique vp_std_unique
 #define binary_search vp_std_binary_search
 #define lower_bound vp_std_lower_bound
